@@ -6,6 +6,7 @@ import (
 	"go/types"
 	"sort"
 	"strconv"
+	"strings"
 )
 
 // AspTables (properties C16, C17, C18): the operator tables of the BUILD language, regenerated from
@@ -161,6 +162,24 @@ func init() {
 			return s.interpretOp(obj, OpExpression{ Op: ops[0].Op, Expr: &Expression{optimised: &optimisedExpression{Constant: nobj}}, }) }`
 		matchShape("scope.interpretOps", bodyText(fsI, findFunc(fi, "scope", "interpretOps")), opsShape)
 
+		// --- pyList.concat (list + list): pinned -----------------------------------------------------
+		// Model/C16_Prim.v list_add (Asp) allocates a NEW array of exact capacity for every list + list. The pin fails
+		// closed if concat changes shape; that pyList.Operator(Add) calls it on both paths is checked textually.
+		fsO, fo := parseFile("src/parse/asp/objects.go")
+		const concatShape = `{
+			ret := make(pyList, 0, len(l)+len(l2))
+			return append(append(ret, l...), l2...) }`
+		cf := findFunc(fo, "pyList", "concat")
+		if cf == nil {
+			failShape("pyList.concat not found: list + list is no longer the fresh-array concatenation the C16 model describes")
+		}
+		matchShape("pyList.concat", bodyText(fsO, cf), concatShape)
+		opText := bodyText(fsO, findFunc(fo, "pyList", "Operator"))
+		if !strings.Contains(opText, "return l.concat(l2.pyList)") || !strings.Contains(opText, "return l.concat(l2)") ||
+			strings.Contains(opText, "append(l, l2") {
+			failShape("pyList.Operator(Add) does not return l.concat(...) on both paths")
+		}
+
 		return "From Coq Require Import List String ZArith. Import ListNotations. Open Scope string_scope. Open Scope Z_scope.\n" +
 			"(* Operator.Precedence(): constant name -> precedence, and the default of the switch *)\n" +
 			"Definition asp_prec_table : list (string * Z) := [" + joinSemi(table) + "].\n" +
@@ -170,7 +189,10 @@ func init() {
 			"(* var operators: source token -> constant name *)\n" +
 			"Definition asp_operators : list (string * string) := [" + joinSemi(toks) + "].\n" +
 			"(* scope.interpretOps has the statement shape Model/C16_Ops.v (flat_ops) was transcribed from *)\n" +
-			"Definition asp_interpret_ops_pinned : bool := true.\n"
+			"Definition asp_interpret_ops_pinned : bool := true.\n" +
+			"(* pyList.Operator(Add) returns l.concat(l2), and concat is append(append(make(pyList, 0, len(l)+len(l2)), l...), l2...):\n" +
+			"   the shape Model/C16_Prim.v list_add (Asp) was transcribed from *)\n" +
+			"Definition asp_list_concat_pinned : bool := true.\n"
 	}
 }
 
